@@ -423,30 +423,6 @@ pub fn outcome_hash(obs: &Observation) -> u64 {
     acc
 }
 
-/// Preconditions of the already-known scanner defects that are present in this case. Used only
-/// to qualify failures that show up after the consumer dropped / handed away a field: from then on
-/// the parser skips content that the harness cannot see, so a symptom cannot be traced to the
-/// first wrong byte; instead the signature lists which known triggers the skipped data contains.
-fn known_triggers(parse: &Parse, cx: &Ctx<'_>) -> Vec<&'static str> {
-    let mut t = Vec::new();
-    let data = cx.data;
-    let bare = [b"\r--", cx.boundary.as_bytes()].concat();
-    let nocl: Vec<&crate::refparse::RField> = parse.fields.iter().filter(|f| f.content_length().is_none()).collect();
-    if nocl.iter().any(|f| f.content.windows(bare.len()).any(|w| w == &bare[..])) {
-        t.push("bare-CR-dashes-boundary-in-content");
-    }
-    // (the third scanner defect, a buffer holding exactly CRLF--, was fixed in /repo by db3bce7;
-    // it is no longer a known trigger, so its symptoms are reported as ordinary violations)
-    if cx.end == EndKind::Eof && matches!(parse.status, Status::Malformed(Where::Content)) {
-        if let Some(pf) = parse.partial() {
-            if pf.content_length().is_none() && unresolved_cr(data, pf.content_start, cx.boundary) {
-                t.push("eof-with-unresolved-CR-in-content");
-            }
-        }
-    }
-    t
-}
-
 /// Accept the observation if it is consistent with one of the readings of the delivered bytes
 /// (strict first, then with 1, 2, .. debatable delimiter candidates read as content). When no
 /// reading fits, the failure of the reading that matched the longest prefix of events is reported.
@@ -463,43 +439,14 @@ pub fn judge(obs: &Observation, parses: &[Parse], cx: &Ctx<'_>) -> Result<(), Fa
         }
     }
     let (mut f, pi) = best.expect("at least one reading");
+    // after the consumer dropped / handed away a field the parser skips content that the harness
+    // cannot see, so the symptom may lie downstream of the first wrong byte: say so in the signature
     let skipped_before = obs.events.iter().take(f.at.min(obs.events.len())).any(|e| {
         matches!(e, Ev::FieldEnd { how: End::Dropped | End::Parked, .. })
     });
-    // a deviation with one of the precise known patterns, observed directly in a field the
-    // consumer is itself reading, keeps its direct classification
-    let precise = matches!(
-        f.signature.as_str(),
-        "content-shortened:field-ended-at-bare-CR-dashes-boundary"
-            | "content-extended:CRLF-dashes-of-delimiter-delivered-as-one-content-chunk"
-            | "hang:eof-in-content-without-content-length:unresolved-CR-lookahead"
-    );
-    let upto = f.at.min(obs.events.len());
-    let cur_idx = obs.events[..(upto + 1).min(obs.events.len())].iter().rev().find_map(|e| match e {
-        Ev::Field { idx, .. } | Ev::Chunk { idx, .. } | Ev::FieldEnd { idx, .. } => Some(*idx),
-        _ => None,
-    });
-    let cur_being_read = cur_idx
-        .map(|ci| {
-            let skipped = obs.events[..upto].iter().any(|e| matches!(e, Ev::FieldEnd { idx, how: End::Dropped | End::Parked } if *idx == ci));
-            let ended_before = obs.events[..upto].iter().any(|e| matches!(e, Ev::FieldEnd { idx, .. } if *idx == ci));
-            !skipped && (!ended_before || f.at < obs.events.len())
-        })
-        .unwrap_or(false);
-    let direct = precise && cur_being_read;
-    if skipped_before && !direct && f.clause != "panic" && f.clause != "c" {
-        let trig = known_triggers(parses.last().unwrap_or(&parses[pi]), cx);
-        if trig.is_empty() {
-            f.signature = format!("after-skipped-field:{}", f.signature);
-        } else {
-            f.what = format!(
-                "after the consumer dropped/handed away a field (its remaining content is skipped inside the parser, unseen by the harness): {} [original classification: {}]; the skipped data contains the trigger(s) of known scanner defects: {}",
-                f.what,
-                f.signature,
-                trig.join(", ")
-            );
-            f.signature = "after-skipped-field:input-contains-trigger-of-known-read_stream-defect".to_string();
-        }
+    let _ = pi;
+    if skipped_before && f.clause != "panic" && f.clause != "c" {
+        f.signature = format!("after-skipped-field:{}", f.signature);
     }
     Err(f)
 }
